@@ -87,8 +87,10 @@ def oracle(u):
     accepted = r.startswith("C ok ")
     have_q = int(cfg.get("q", 1)) == 1
     # datatypes
-    if int(cfg.get("io", 1)) and not cfg.get("viaio") and (int(cfg.get("itype", 0)) | int(cfg.get("otype", 0))) >= 8 and accepted:
-        bad.append(("datatype", "datatype code >= 8 accepted"))
+    if int(cfg.get("io", 1)) and (int(cfg.get("itype", 0)) | int(cfg.get("otype", 0))) >= 8 and accepted:
+        bad.append(("datatype", "datatype code >= 8 accepted" + (" (flagged by soxr_io_spec in io_spec.e)" if cfg.get("viaio") else "")))
+    if ch and (ir < 0 or orr < 0) and accepted:
+        bad.append(("rates", "negative rate accepted: %r -> %r" % (ir, orr)))
     # one rate given, the other not; or exactly one negative
     finite = all(math.isfinite(x) for x in (ir, orr))
     if ch and finite and ((ir > 0) != (orr > 0)) and not (ir == 0 and orr == 0) and accepted:
@@ -108,28 +110,32 @@ def oracle(u):
                     bad.append(("env-range", "%s=%s (outside the documented range %d..%d) took effect" % (name, txt, lo, hi)))
         if a["ready"] == "1" and a["engine"] in CR_ENGINES:
             p, ph, pb, sb = (cl.b2d(a[k]) for k in ("prec", "phase", "pb", "sb"))
-            if math.isfinite(p) and p != 0 and clearly(p, 15, 33, 1e-9)[1]:
+            if math.isnan(p) or (p != 0 and clearly(p, 15, 33, 1e-9)[1]):
                 bad.append(("precision", "precision %r accepted" % p))
-            if math.isfinite(ph) and (ph < -1e-300 or ph > 100 * (1 + 1e-9)):
+            if math.isnan(ph) or ph < -1e-300 or ph > 100 * (1 + 1e-9):
                 bad.append(("phase", "phase_response %r accepted" % ph))
-            if all(math.isfinite(x) for x in (pb, sb)):
+            if math.isnan(pb) or math.isnan(sb):
+                bad.append(("band-edges", "passband_end %r / stopband_begin %r accepted" % (pb, sb)))
+            else:
                 if clearly(sb - pb, .002, .5)[1]:
                     bad.append(("transition-band", "transition bandwidth %r accepted" % (sb - pb)))
                 if pb < .5 * (1 - 1e-4) or sb > 1.5 * (1 + 1e-4):
                     bad.append(("band-edges", "passband_end %r / stopband_begin %r accepted" % (pb, sb)))
             ratio = cl.b2d(a["ratio"])
-            if not (ratio > 0) or not (ratio < 2.0 ** 31):
+            if not (ratio > 0) or not (ratio < 2147483647.0):
                 bad.append(("factor", "resampling factor %r accepted" % ratio))
+        if a["ready"] == "1" and a["engine"] == "vr32" and not (0 < cl.b2d(a["ratio"]) < 2.0 ** 30):
+            bad.append(("factor", "variable-rate engine: maximum ratio %r accepted" % cl.b2d(a["ratio"])))
     elif r.startswith("C err") and have_q and ch and finite and ir > 0 and orr > 0 and not cfg.get("qe"):
         # clearly inside every documented range => must be accepted
         q = u.meta.get("qfields")      # fields as given (before rescaling), from the real constructor
-        if q and not q["e"] and (not int(cfg.get("io", 1)) or (int(cfg.get("itype", 0)) | int(cfg.get("otype", 0))) < 8):
+        if q and not q["e"] and not cfg.get("ioe") and (not int(cfg.get("io", 1)) or (int(cfg.get("itype", 0)) | int(cfg.get("otype", 0))) < 8):
             p, ph, pb, sb = q["prec"], q["phase"], q["pb"], q["sb"]
             ratio = ir / orr
             vr = (q["flags"] & cl.VR) != 0
             inside = (vr or ((p == 0 or 15 <= p <= 33) and 0 <= ph <= 100 and pb <= 2 and sb <= 2 and
                              clearly(sb - pb, .002, .5)[0] and pb >= .5 * (1 + 1e-4) and sb <= 1.5 * (1 - 1e-4) and
-                             (ratio >= 1 or sb - 1 <= (1 - pb) * (1 - 1e-4)))) and 0 < ratio < 2.0 ** 31 * (1 - 1e-9)
+                             (ratio >= 1 or sb - 1 <= (1 - pb) * (1 - 1e-4)))) and 0 < ratio < (2.0 ** 30 if vr else 2.0 ** 31) * (1 - 1e-9)
             if inside:
                 bad.append(("in-range-rejected", "every field inside its documented range, rejected with: %s" % r[6:]))
     return bad
@@ -264,8 +270,6 @@ def stage_create(ctx, exe, n, known):
                 violation(ctx, "create", "correspondence broken (Config model vs real soxr_create):\n op   : %s\n real : %s\n model: %s" % (
                     d[1][:500], d[2][:400], d[3][:400]), {"stage": "create", "ops": u.ops, "real": u.real, "model": u.model}, no_input=True)
         else:
-            if u.meta["cfg"].get("viaio") and "F21" in sig_known(u) and v.startswith("C ok") and "F21" in known:
-                ctx.known("F21", known["F21"]["what"]); ctx.hist("known_hits", "F21")
             ctx.sample({"create": u.ops[0][:300], "real": v[:200]})
     ctx.cov["distinct_nontrivial"] = ctx.cov.get("distinct_nontrivial", 0) + len(verdicts)
     return units
@@ -361,8 +365,6 @@ def stage_api(ctx, exe, n, known):
         if bad:
             if "F25" in known and bad[0] == "split":
                 ctx.known("F25", known["F25"]["what"]); ctx.hist("known_hits", "F25")
-            elif "F28" in known and bad[0] == "engine-null":
-                ctx.known("F28", known["F28"]["what"]); ctx.hist("known_hits", "F28")
             else:
                 violation(ctx, "api-oracle", "C09 sticky error fails on the real code: %s (%s)" % (bad[1], " | ".join(u.model_in)[:800]),
                               {"stage": "api", "ops": u.ops, "real": u.real, "oracle": bad})
@@ -404,12 +406,9 @@ def sticky_oracle(u):
             continue
         if err is not None:
             if t[0] == "engine":
-                if ans.startswith("X nullcall"):
-                    found_engine_null = True
                 continue
             if ans.startswith("X misuse") or ans.startswith("X nullcall"):
-                if not (both and t[0] == "process"):
-                    return ("lost", "after the error `%s` `%s` would dereference NULL: the recorded error is gone" % (err, t[0]))
+                return ("lost", "after the error `%s` `%s` would dereference NULL: the recorded error is gone" % (err, t[0]))
             if t[0] == "error" and ans != "S " + err:
                 return ("lost", "soxr_error() answers `%s` after the error `%s` had been reported" % (ans[2:], err))
             if t[0] == "setratio" and ans.startswith("S ") and ans != "S " + err:
@@ -417,7 +416,7 @@ def sticky_oracle(u):
             if t[0] == "process" and ans.startswith("P "):
                 k = cl.kv(ans)
                 msg = ans.split("err=", 1)[1]
-                if msg != err and not (both and msg == "-"):
+                if msg != err:
                     return ("msg", "soxr_process returned `%s` while the error `%s` was recorded" % (msg, err))
                 if k["z"] != "1":
                     return ("split" if both else "out", "soxr_process delivered output while the error `%s` was recorded" % err)
@@ -433,7 +432,7 @@ def sticky_oracle(u):
             err = ans.split("err=", 1)[1]
         elif t[0] in ("process", "output") and t[-1] == "failed":
             err = "input function reported failure"
-    return ("engine-null", "soxr_engine() after a failed deferred initialisation calls through the zeroed control block") if found_engine_null else None
+    return None
 
 
 def working_ops(rng, tcfg, plan, up):
@@ -508,6 +507,9 @@ def stage_working(ctx, units, nmax, known):
             for h in pre:
                 if h in known and h in ("F22", "F24", "F23"):
                     ctx.known(h, known[h]["what"]); ctx.hist("known_hits", h)
+                elif h in ("F22", "F24"):
+                    violation(ctx, "working", "C09: an accepted configuration matches the signature of the repaired finding %s (%s)" % (h, u.ops[0][:400]),
+                              {"stage": "working", "ops": u.ops, "real": u.real})
             continue
         if how == "create-differs":
             hits = [h for h in pre if h in known]
@@ -569,14 +571,16 @@ PINNED = [
     ("F22", ["create ir=%d or=%d ch=1 recipe=4 rflags=32" % (cl.d2b(1e308), cl.d2b(1e-308))], "dead"),
     ("F21", ["create ir=%d or=%d ch=1 viaio=1 itype=9 otype=0" % (cl.d2b(1.0), cl.d2b(2.0))], "accepted"),
     ("F27", ["create ir=%d or=%d ch=1" % (cl.d2b(-44100.0), cl.d2b(-48000.0))], "accepted"),
-    ("F28", ["create ir=%d or=%d ch=1 prec=%d" % (cl.d2b(0.0), cl.d2b(0.0), cl.d2b(14.0)), "setratio %d" % cl.d2b(2.0), "error", "engine"], "engine-null"),
+    ("F28", ["create ir=%d or=%d ch=1 prec=%d" % (cl.d2b(0.0), cl.d2b(0.0), cl.d2b(14.0)), "setratio %d" % cl.d2b(2.0), "error", "engine", "error"], "dead"),
+    ("F24", ["create ir=%d or=%d ch=1 recipe=0" % (cl.d2b(2147483647.0), cl.d2b(1.0))], "accepted"),
+    ("F22b", ["create ir=%d or=%d ch=1 recipe=4 rflags=32" % (cl.d2b(2.0 ** 30), cl.d2b(1.0))], "accepted"),
     ("F25", ["create ir=%d or=%d ch=1 itype=4 otype=4" % (cl.d2b(1.0), cl.d2b(1.0)), "process 0 0 700 100", "output 1 5", "error", "process 0 0 700 100", "error"], "sticky-split"),
 ]
 
 
 def stage_pinned(ctx, exe, known):
-    """Every listed finding of the pinned tree is replayed on purpose; a finding that no longer reproduces is reported
-    in the evidence (the known_findings entry should then become `fixed`)."""
+    """The reproduction of every finding of this area is replayed on every run: a `known` one prints KNOWN-FINDING, a repaired
+    (`fixed`) one must no longer reproduce -- if it does (the repair was reverted) that is a VIOLATION with this input."""
     units = [cl.Unit(ops, {"cfg": {"itype": 4, "otype": 4} if fid == "F25" else {"itype": 0, "otype": 0}, "fid": fid, "expect": exp}) for fid, ops, exp in PINNED]
     cl.run_real(exe, units, timeout=8, batch=1)
     cl.run_model(units)
@@ -591,13 +595,14 @@ def stage_pinned(ctx, exe, known):
             b = sticky_oracle(u)
             hit = bool(b) and b[0] == ("split" if exp == "sticky-split" else exp)
         ctx.cov.setdefault("pinned_findings", {})[fid] = "reproduced" if hit else "not reproduced"
+        fid = fid.rstrip("b")
         if hit and fid in known:
             ctx.known(fid, known[fid]["what"])
         elif hit and fid not in known:
             # a reproduced defect that is not (or no longer) listed as known
-            violation(ctx, "pinned", "C09: defect %s reproduces on the real code but is not an active known finding: %s" % (fid, " | ".join(u.ops)[:400]),
+            violation(ctx, "pinned-" + fid, "C09: defect %s reproduces on the real code but is not an active known finding (its repair is gone?): %s" % (fid, " | ".join(u.ops)[:400]),
                           {"stage": "pinned", "ops": u.ops, "real": u.real, "rc": u.rc, "stderr": u.err[-800:]})
-        if exp != "dead" and cl.diff_unit(u):
+        if u.rc == 0 and cl.diff_unit(u):
             d = cl.diff_unit(u)
             violation(ctx, "pinned", "correspondence broken on pinned case %s: op %s real %s model %s" % (fid, d[1][:200], d[2][:200], d[3][:200]),
                           {"stage": "pinned", "ops": u.ops, "real": u.real, "model": u.model}, no_input=True)
